@@ -119,16 +119,6 @@ def _growers_of(repo: Repo, rel: str, cls: Optional[str], name: str) -> List[Tup
     return out
 
 
-def _releases(fn: ast.AST, attr: str) -> bool:
-    """Does *fn* remove entries from the container `attr` (del x[k], x.pop(k), x.popitem(), x.clear())?"""
-    for n in walk_no_nested(fn):
-        if isinstance(n, ast.Delete) and any(isinstance(t, ast.Subscript) and dotted_name(t.value) == attr for t in n.targets):
-            return True
-        if isinstance(n, ast.Call) and isinstance(n.func, ast.Attribute) and n.func.attr in ("pop", "popitem", "clear") and dotted_name(n.func.value) == attr:
-            return True
-    return False
-
-
 def _channel_templates(repo: Repo, mod, f: ast.AST, expr: Optional[ast.AST], depth: int = 0) -> Optional[List[str]]:
     """The channel names *expr* can denote, as fnmatch-able templates (formatted fields -> "0000"); None = unknown.
     Locals are followed to their assignments, parameters to the arguments at the call sites of *f*,
@@ -188,9 +178,39 @@ def _channel_templates(repo: Repo, mod, f: ast.AST, expr: Optional[ast.AST], dep
     return None
 
 
-def _appends_guarded_by_membership(fn: ast.AST, list_name: str) -> bool:
+def _loop_ancestors(fn: ast.AST, node: ast.AST) -> List[ast.AST]:
+    """The loop statements of *fn* that enclose *node* (innermost first)."""
+    out = []
+    for a in ancestors(node):
+        if a is fn:
+            break
+        if isinstance(a, (ast.For, ast.AsyncFor, ast.While)):
+            out.append(a)
+    return out
+
+
+def _raises_unless_plain_container_op(part: ast.AST) -> Set[str]:
+    """may_raise for pairing questions: anything that calls, subscripts, imports or raises may raise an Exception,
+    except the plain container operations `<name>.add(x)` / `<name>.append(x)` themselves (if they raised, nothing
+    was recorded).  KeyboardInterrupt-class aborts are not a way a run completes and are left out."""
+    for n in walk_no_nested(part):
+        if isinstance(n, ast.Call):
+            if isinstance(n.func, ast.Attribute) and n.func.attr in ("add", "append") and dotted_name(n.func.value) and all(isinstance(a, (ast.Name, ast.Constant)) for a in n.args):
+                continue
+            return {"EXC"}
+        if isinstance(n, (ast.Raise, ast.Assert, ast.Await, ast.Yield, ast.YieldFrom, ast.Import, ast.ImportFrom)):
+            return {"EXC"}
+        if isinstance(n, ast.Subscript) and isinstance(n.ctx, ast.Load):
+            return {"EXC"}
+    return set()
+
+
+def _appends_guarded_by_membership(fn: ast.AST, list_name: str) -> Tuple[bool, str]:
     """Every `<x>.<list_name>.append(v)` in *fn* is dominated by a branch edge on which `v not in M` holds,
-    where M is the list itself or a container that receives v in the same function (the seen-set idiom)."""
+    where M is the list itself or a container that receives v in the same function (the seen-set idiom).
+    A guard on a *separate* seen-set M bounds the list only if the two stay in step: whenever v is appended, v is
+    also recorded in M before the guard is evaluated for the next value - on every way the iteration can end
+    (fall through, `continue`, a caught exception), not only on the straight path.  Returns (ok, why not)."""
     from ..cfg import CFG, edges_guaranteeing
 
     from ..engine import assigned_value
@@ -207,36 +227,233 @@ def _appends_guarded_by_membership(fn: ast.AST, list_name: str) -> bool:
     if not appends:
         raise AnalysisError(f"{qualname_of(fn)}: no append to {list_name} found")
     g = CFG(fn, may_raise=lambda p: set())
+    gx = CFG(fn, may_raise=_raises_unless_plain_container_op)  # with the exception edges into the handlers
     for c in appends:
         if c.func.attr != "append" or len(c.args) != 1:
-            return False
+            return False, f"`{norm(c)[:60]}` is not a single-value append"
         v = ast.unparse(c.args[0])
         target = denotes(c.func.value)
-        members = {target}
+        recorders: Dict[Optional[str], List[ast.Call]] = {target: []}
         for o in calls_in(fn):
             if isinstance(o.func, ast.Attribute) and o.func.attr in ("add", "append") and len(o.args) == 1 and ast.unparse(o.args[0]) == v:
-                members.add(denotes(o.func.value))
-
-        def atom(e: ast.AST) -> Optional[bool]:
-            if isinstance(e, ast.Compare) and len(e.ops) == 1 and ast.unparse(e.left) == v and denotes(e.comparators[0]) in members:
-                if isinstance(e.ops[0], ast.NotIn):
-                    return True
-                if isinstance(e.ops[0], ast.In):
-                    return False
-            return None
-
+                recorders.setdefault(denotes(o.func.value), []).append(o)
         ids = g.nodes_for(stmt_of(c))
         if not ids:
-            return False
-        ok = False
+            return False, f"`{norm(c)[:60]}`: statement not in the control-flow graph"
+        guarded_by: List[Optional[str]] = []
+        for member in recorders:
+
+            def atom(e: ast.AST, member=member) -> Optional[bool]:
+                if isinstance(e, ast.Compare) and len(e.ops) == 1 and ast.unparse(e.left) == v and denotes(e.comparators[0]) == member:
+                    if isinstance(e.ops[0], ast.NotIn):
+                        return True
+                    if isinstance(e.ops[0], ast.In):
+                        return False
+                return None
+
+            for n in g.nodes:
+                if n.kind in ("if", "while") and n.part is not None:
+                    for lab in edges_guaranteeing(n.part, atom):
+                        if all(g.dominated_by_edge(t, n.id, lab) for t in ids) and member not in guarded_by:
+                            guarded_by.append(member)
+        if not guarded_by:
+            return False, f"`{norm(c)[:60]}` is not dominated by a `{v} not in <the list / a set that receives {v}>` test"
+        if target in guarded_by:
+            continue  # the list is its own membership record
+        # guarded by a separate seen-set: the append and the recording must be inseparable
+        why = ""
+        for member in guarded_by:
+            rec_nodes = {i for o in recorders[member] for i in gx.nodes_for(stmt_of(o))}
+            app_nodes = [i for i in gx.nodes_for(stmt_of(c)) if i not in rec_nodes]
+            if not app_nodes:
+                why = ""
+                break  # recorded in the same statement
+            headers = [i for lp in _loop_ancestors(fn, c) for i in gx.nodes_for(lp)]
+            # recorded first: no way from the start of the call / of an iteration to the append that skips the recording
+            before = gx.reach([gx.entry] + headers, blocked=set(rec_nodes))
+            if not any(i in before for i in app_nodes):
+                why = ""
+                break
+            # recorded afterwards: every way the iteration / the call can go on from the append passes the recording
+            after = gx.reach(app_nodes, blocked=set(rec_nodes))
+            ends = [t for t in headers + [gx.ret_exit] if t in after and t not in app_nodes]
+            if not ends:
+                why = ""
+                break
+            path = gx.path_to(after, ends[0])
+            why = (f"`{norm(c)[:60]}` is guarded by `{v} not in {member}`, but {member} does not receive {v} on every path on which the list does "
+                   f"(e.g. {' -> '.join(x.split(': ', 1)[-1].split(' <-')[0][:40] for x in path[1:4])}): for such a value the guard stays open, and every later call "
+                   f"(workers apply the registry profile per job) appends it again - the list, and the profile built from it, grow with the number of runs")
+        if why:
+            return False, why
+    return True, ""
+
+
+FINISHERS = {"set_result", "set_exception", "cancel"}
+UNWRAP_CALLS = {"list", "tuple", "sorted", "iter", "reversed", "set", "frozenset", "enumerate"}
+
+
+class _ReleaseFlow:
+    """A keyed container on a long-lived object that is bounded *because entries are released* (the master's map of
+    pending futures): finishing an entry (set_result / set_exception / cancel on a value taken from the container)
+    is the last use the owner has for it, so on every way the code goes on from a finishing call - to the next
+    message of the service loop or out of the function - the entry is released (del / pop / clear), or it was taken
+    out (`pop`) before it was finished.  Helpers are followed with what their parameters denote (the container, an
+    entry); a helper that finishes and returns without releasing hands the obligation to its call sites."""
+
+    def __init__(self, repo: Repo, attr: str, within: Set[int]):
+        self.repo, self.attr, self.within = repo, attr, within
+        self.memo: Dict[Tuple[int, tuple], Tuple[Optional[ast.AST], bool]] = {}
+        self.violations: List[Tuple[str, str, ast.AST, str]] = []
+        self.finish_sites: Set[int] = set()
+
+    def kind(self, fn: ast.AST, e: Optional[ast.AST], env: Dict[str, str], depth: int = 0) -> Optional[str]:
+        """"A": the container; "ELEM": one of its entries; None: anything else."""
+        from ..engine import assigned_value
+
+        if e is None or depth > 5:
+            return None
+        if isinstance(e, ast.NamedExpr):
+            return self.kind(fn, e.value, env, depth + 1)
+        if isinstance(e, ast.Attribute) and dotted_name(e) == self.attr:
+            return "A"
+        if isinstance(e, ast.Name):
+            kinds = set()
+            if e.id in env:
+                kinds.add(env[e.id])
+            for v in assigned_value(fn, e.id):
+                if isinstance(v, ast.Name) and v.id == e.id:
+                    continue
+                if isinstance(v, ast.Constant) and v.value is None:
+                    continue
+                kinds.add(self.kind(fn, v, env, depth + 1))
+            for lp in walk_no_nested(fn):  # `for k, fut in list(A.items())`, `for fut in A.values()`
+                if isinstance(lp, (ast.For, ast.AsyncFor, ast.comprehension)):
+                    it = lp.iter
+                    while isinstance(it, ast.Call) and call_attr(it) in UNWRAP_CALLS and it.args:
+                        it = it.args[0]
+                    if isinstance(it, ast.Call) and isinstance(it.func, ast.Attribute) and self.kind(fn, it.func.value, env, depth + 1) == "A":
+                        t = lp.target
+                        if it.func.attr == "values" and isinstance(t, ast.Name) and t.id == e.id:
+                            kinds.add("ELEM")
+                        if it.func.attr == "items" and isinstance(t, ast.Tuple) and len(t.elts) == 2 and isinstance(t.elts[1], ast.Name) and t.elts[1].id == e.id:
+                            kinds.add("ELEM")
+            return kinds.pop() if len(kinds) == 1 else None
+        if isinstance(e, ast.Subscript):
+            return "ELEM" if self.kind(fn, e.value, env, depth + 1) == "A" else None
+        if isinstance(e, ast.Call) and isinstance(e.func, ast.Attribute) and e.func.attr in ("get", "pop", "setdefault", "__getitem__"):
+            return "ELEM" if self.kind(fn, e.func.value, env, depth + 1) == "A" else None
+        if isinstance(e, ast.IfExp):
+            ks = {self.kind(fn, x, env, depth + 1) for x in (e.body, e.orelse) if not (isinstance(x, ast.Constant) and x.value is None)}
+            return ks.pop() if len(ks) == 1 else None
+        return None
+
+    def _enumerates_container(self, fn: ast.AST, lp: ast.AST, env: Dict[str, str]) -> bool:
+        it = getattr(lp, "iter", None)
+        while isinstance(it, ast.Call) and call_attr(it) in UNWRAP_CALLS and it.args:
+            it = it.args[0]
+        if isinstance(it, ast.Call) and isinstance(it.func, ast.Attribute) and it.func.attr in ("items", "values", "keys"):
+            it = it.func.value
+        return self.kind(fn, it, env) == "A"
+
+    def has_release(self, fn: ast.AST) -> bool:
+        """Some statement of *fn* removes entries from the container (named directly or through a local alias)."""
+        for n in walk_no_nested(fn):
+            if isinstance(n, ast.Delete) and any(isinstance(t, ast.Subscript) and self.kind(fn, t.value, {}) == "A" for t in n.targets):
+                return True
+            if isinstance(n, ast.Call) and isinstance(n.func, ast.Attribute) and n.func.attr in ("pop", "popitem", "clear") and self.kind(fn, n.func.value, {}) == "A":
+                return True
+        return False
+
+    def _classify(self, mod, fn: ast.AST, x: ast.AST, env: Dict[str, str]) -> Tuple[bool, bool]:
+        """(releases, finishes) for the expression / simple statement *x* evaluated at one CFG node."""
+        rel = fin = False
+        for n in [x] + list(walk_no_nested(x)) if not isinstance(x, FuncNode) else []:
+            if isinstance(n, ast.Delete):
+                rel = rel or any(isinstance(t, ast.Subscript) and self.kind(fn, t.value, env) == "A" for t in n.targets)
+            elif isinstance(n, (ast.Assign, ast.AnnAssign)) and getattr(n, "value", None) is not None:
+                tg = n.targets if isinstance(n, ast.Assign) else [n.target]
+                rel = rel or any(isinstance(t, ast.Attribute) and dotted_name(t) == self.attr for t in tg)  # rebound to a fresh map
+            elif isinstance(n, ast.Call) and isinstance(n.func, ast.Attribute):
+                m = n.func.attr
+                if m in ("pop", "popitem", "clear") and self.kind(fn, n.func.value, env) == "A":
+                    rel = True
+                    continue
+                if m in FINISHERS and self.kind(fn, n.func.value, env) == "ELEM":
+                    fin = True
+                    self.finish_sites.add(id(n))
+                    continue
+            if isinstance(n, ast.Call):
+                for tmod, tfn, env2 in self._callees(mod, fn, n, env):
+                    leak, always = self.analyse(tmod, tfn, env2)
+                    rel = rel or always
+                    fin = fin or leak is not None
+        return rel, fin
+
+    def _callees(self, mod, fn: ast.AST, call: ast.Call, env: Dict[str, str]):
+        try:
+            targets = self.repo.resolve_call(mod, call)
+        except Exception:
+            targets = []
+        for tmod, tfn in targets:
+            if not isinstance(tfn, FuncNode) or tfn is fn:
+                continue
+            a = tfn.args
+            pos = [p.arg for p in a.posonlyargs + a.args]
+            deco = {dotted_name(d) for d in tfn.decorator_list}
+            if isinstance(parent(tfn), ast.ClassDef) and "staticmethod" not in deco and pos and isinstance(call.func, ast.Attribute):
+                pos = pos[1:]
+            env2: Dict[str, str] = {}
+            for p_, v in zip(pos, [x for x in call.args if not isinstance(x, ast.Starred)]):
+                k = self.kind(fn, v, env)
+                if k:
+                    env2[p_] = k
+            names = set(pos) | {p.arg for p in a.kwonlyargs}
+            for kw_ in call.keywords:
+                k = self.kind(fn, kw_.value, env) if kw_.arg in names else None
+                if k:
+                    env2[kw_.arg] = k
+            if env2 or id(tfn) in self.within:
+                yield tmod, tfn, env2
+
+    def analyse(self, mod, fn: ast.AST, env: Dict[str, str]) -> Tuple[Optional[ast.AST], bool]:
+        """(a finishing statement after which *fn* can return without a release - or None, *fn* releases on every return)."""
+        from ..cfg import CFG
+
+        key = (id(fn), tuple(sorted(env.items())))
+        if key in self.memo:
+            return self.memo[key]
+        self.memo[key] = (None, False)
+        g = CFG(fn, may_raise=lambda p: set())
+        rel_nodes: Set[int] = set()
+        fin_nodes: List[int] = []
         for n in g.nodes:
-            if n.kind in ("if", "while") and n.part is not None:
-                for lab in edges_guaranteeing(n.part, atom):
-                    if all(g.dominated_by_edge(t, n.id, lab) for t in ids):
-                        ok = True
-        if not ok:
-            return False
-    return True
+            x = n.part if n.kind in ("if", "for", "while", "with") else n.ast if n.kind == "stmt" else None
+            if x is None or isinstance(x, FuncNode + (ast.ClassDef,)):
+                continue
+            rel, fin = self._classify(mod, fn, x, env)
+            if rel:
+                rel_nodes.add(n.id)
+            elif fin:
+                fin_nodes.append(n.id)
+        always = bool(rel_nodes) and g.ret_exit not in g.reach([g.entry], blocked=rel_nodes)
+        leak: Optional[ast.AST] = None
+        qn = qualname_of(fn)
+        for c in fin_nodes:
+            st = g.nodes[c].ast
+            loops = [lp for lp in _loop_ancestors(fn, st) if not self._enumerates_container(fn, lp, env)]
+            headers = [i for lp in loops for i in g.nodes_for(lp) if i != c]
+            if c not in g.reach([g.entry] + headers, blocked=rel_nodes):
+                continue  # taken out of the container before it is finished
+            after = g.reach([c], blocked=rel_nodes)
+            hit = [h for h in headers if h in after]
+            if hit:
+                path = g.path_to(after, hit[0])
+                self.violations.append((mod.rel, qn, st, " -> ".join(x.split(": ", 1)[-1].split(" <-")[0][:40] for x in path[1:5])))
+            elif g.ret_exit in after:
+                leak = leak or st
+        self.memo[key] = (leak, always)
+        return leak, always
 
 
 REGISTRY = "_COMPONENT_REGISTRY"
@@ -601,7 +818,8 @@ def run(repo: Repo, R: Report) -> None:
         ("semantiva/registry/parameter_resolver_registry.py", "ParameterResolverRegistry.register_resolver", "_resolvers", "resolver append guarded by membership", "resolver list grows on every registration"),
     ):
         fn = repo.func(rel, qn)
-        R.check(_appends_guarded_by_membership(fn, lst), r_glob, rel, qn, what_ok, what_bad, fn.lineno)
+        guarded, why_not = _appends_guarded_by_membership(fn, lst)
+        R.check(guarded, r_glob, rel, qn, what_ok, what_bad + (": " + why_not if why_not else ""), fn.lineno)
     # stdlib registrars and unbounded caches
     n_reg = 0
     for mod, qn, f in repo.all_functions():
@@ -677,8 +895,22 @@ def run(repo: Repo, R: Report) -> None:
     qmod = repo.module(qrel)
     qcls = enclosing_class(qo)
     reach = [fn for _m, fn, _p in repo.call_graph_closure([(qmod, qo)]).values() if enclosing_class(fn) is qcls]
-    released = any(_releases(fn, "self.pending_futures") for fn in reach)
+    rflow = _ReleaseFlow(repo, "self.pending_futures", {id(fn) for fn in reach})
+    released = any(rflow.has_release(fn) for fn in reach)
     R.check(released, r_obj, qrel, "QueueSemantivaOrchestrator.run_forever", "pending_futures entry released on completion", "completed futures stay registered forever", qo.lineno)
+    # ... and on *every* way the loop goes on after a future was completed (result or failure), not only on one branch
+    leak, _always = rflow.analyse(qmod, qo, {})
+    if leak is not None:
+        rflow.violations.append((qrel, "QueueSemantivaOrchestrator.run_forever", leak, "return"))
+    for vrel, vqn, vst, vpath in rflow.violations:
+        R.violation(r_obj, vrel, vqn, norm(vst)[:90],
+                    f"a pending future is completed here and the code goes on ({vpath}) without releasing its entry of self.pending_futures: the completed Future - "
+                    "with its result or its exception, whose traceback holds the job's Pipeline, nodes and generated classes - stays registered for the life of the master, one entry per such job", getattr(vst, "lineno", qo.lineno))
+    if not rflow.violations:
+        if not rflow.finish_sites:
+            deferred = deferred or AnalysisError("QueueSemantivaOrchestrator.run_forever: no completion (set_result / set_exception) of a pending future found on the master's loop")
+        else:
+            R.ok(r_obj, qrel, "QueueSemantivaOrchestrator.run_forever", f"{len(rflow.finish_sites)} completion site(s) of pending futures: the entry is released on every continuation", "entry released after (or taken out before) every completion", qo.lineno)
     # publish / subscribe pairing
     patterns = []
     for mod, qn, f in repo.all_functions():
